@@ -17,3 +17,87 @@ package providers
 
 //@ interface Provider.ValidateSessionState(s *sessions.SessionState, allowedGroups []string) bool
 //@   modifies s.ValidDeadline, s.Groups, s.GracePeriodStart, clock
+
+//@ func isProviderUnavailable(statusCode int) bool
+//@   modifies nothing
+//@   ensures [C05] only_429_503: result <==> (statusCode == 429 || statusCode == 503)
+
+// The authenticator's answer is the environment: @Do#1 is the exchange with it (arbitrary status or a
+// transport error), @ReadAll#1 the body read, @Unmarshal#1 the decoding of the body.
+//@ func (p *SSOProvider) redeemRefreshToken(refreshToken string) (token string, expires time.Duration, err error)
+//@   modifies nothing
+//@   let answered = called(@Do#1) && @Do#1.1 == nil && called(@ReadAll#1) && @ReadAll#1.1 == nil
+//@   let status = @Do#1.0.StatusCode
+//@   ensures [C04] ok_needs_201: err == nil ==> answered && status == 201 && called(@Unmarshal#1) && @Unmarshal#1 == nil
+//@   ensures [C05] unavailable_iff_429_503: err == ErrAuthProviderUnavailable <==> answered && (status == 429 || status == 503)
+//@   ensures [C04] revoked_iff_401: err == ErrTokenRevoked <==> answered && status == 401
+//@   ensures [C05] other_failures_are_errors: !answered || (status != 201) || (called(@Unmarshal#1) && @Unmarshal#1 != nil) ==> err != nil
+
+//@ func (p *SSOProvider) UserGroups(email string, groups []string, accessToken string) ([]string, error)
+//@   modifies nothing
+//@   let answered = called(@Do#1) && @Do#1.1 == nil && called(@ReadAll#1) && @ReadAll#1.1 == nil
+//@   let status = @Do#1.0.StatusCode
+//@   ensures [C04] ok_needs_200: result.1 == nil ==> answered && status == 200 && called(@Unmarshal#1) && @Unmarshal#1 == nil
+//@   ensures [C05] unavailable_iff_429_503: result.1 == ErrAuthProviderUnavailable <==> answered && (status == 429 || status == 503)
+//@   ensures [C05] other_failures_are_errors: !answered || status != 200 || (called(@Unmarshal#1) && @Unmarshal#1 != nil) ==> result.1 != nil
+
+//@ func (p *SSOProvider) ValidateGroup(email string, allowedGroups []string, accessToken string) ([]string, bool, error)
+//@   modifies nothing
+//@   let U = @UserGroups#1.0
+//@   ensures [C11] no_group_rule_or_star: (len(allowedGroups) == 0 || (len(allowedGroups) == 1 && allowedGroups[0] == "*")) ==> result.1 && result.2 == nil && !called(@UserGroups#1)
+//@   ensures [C11 C04] asks_for_this_user: called(@UserGroups#1) ==> arg(@UserGroups#1, 1) == email && arg(@UserGroups#1, 2) == allowedGroups && arg(@UserGroups#1, 3) == accessToken
+//@   ensures [C11 C04] membership: called(@UserGroups#1) && @UserGroups#1.1 == nil ==> result.2 == nil && (result.1 <==> exists i, j :: 0 <= i && i < len(U) && 0 <= j && j < len(allowedGroups) && U[i] == allowedGroups[j])
+//@   ensures [C05] lookup_error_passed_on: called(@UserGroups#1) && @UserGroups#1.1 != nil ==> !result.1 && result.2 == @UserGroups#1.1
+//@   loop 1
+//@     invariant allowed <==> exists i, j :: 0 <= i && i < $i && 0 <= j && j < len(allowedGroups) && U[i] == allowedGroups[j]
+//@   loop 2
+//@     invariant allowed <==> ((exists i, j :: 0 <= i && i < $i@1 && 0 <= j && j < len(allowedGroups) && U[i] == allowedGroups[j]) || (exists j :: 0 <= j && j < $i && U[$i@1] == allowedGroups[j]))
+
+// fresh: both exchanges of this call succeeded. Anything else that still returns true is a grace answer.
+//@ func (p *SSOProvider) RefreshSession(s *sessions.SessionState, allowedGroups []string) (bool, error)
+//@   modifies s.AccessToken, s.RefreshDeadline, s.Groups, s.GracePeriodStart, clock
+//@   let Rerr = @redeemRefreshToken#1.2
+//@   let Gerr = @ValidateGroup#1.2
+//@   let fresh = called(@redeemRefreshToken#1) && Rerr == nil && called(@ValidateGroup#1) && Gerr == nil && @ValidateGroup#1.1
+//@   let unavailable = (called(@redeemRefreshToken#1) && Rerr == ErrAuthProviderUnavailable) || (called(@ValidateGroup#1) && Gerr == ErrAuthProviderUnavailable)
+//@   ensures [C04] ok_is_fresh_or_grace: result.0 ==> result.1 == nil && (fresh || unavailable)
+//@   ensures [C04] denied_has_error: !result.0 ==> result.1 != nil
+//@   ensures [C04] fresh_updates: result.0 && fresh ==> s.AccessToken == @redeemRefreshToken#1.0 && s.Groups == @ValidateGroup#1.0 && s.GracePeriodStart == ZERO && s.RefreshDeadline == truncSec(clock + @redeemRefreshToken#1.1)
+//@   ensures [C04] checked_this_user: called(@ValidateGroup#1) ==> arg(@ValidateGroup#1, 1) == s.Email && arg(@ValidateGroup#1, 2) == allowedGroups && arg(@ValidateGroup#1, 3) == @redeemRefreshToken#1.0
+//@   ensures [C04] revoked_refused: called(@redeemRefreshToken#1) && Rerr != nil && Rerr != ErrAuthProviderUnavailable ==> !result.0 && result.1 == Rerr
+//@   ensures [C04] group_removed_refused: called(@ValidateGroup#1) && Gerr == nil && !@ValidateGroup#1.1 ==> !result.0
+//@   ensures [C04] group_error_refused: called(@ValidateGroup#1) && Gerr != nil && Gerr != ErrAuthProviderUnavailable ==> !result.0 && result.1 == Gerr
+//@   ensures [C04] missing_refresh_token: old(s.RefreshToken) == "" ==> !result.0 && result.1 == ErrMissingRefreshToken && !called(@redeemRefreshToken#1)
+//@   ensures [C05] grace_window: result.0 && !fresh ==> old(clock) < s.GracePeriodStart + p.GracePeriodTTL
+//@   ensures [C05] grace_clock_starts_once: result.0 && !fresh ==> (old(s.GracePeriodStart) == ZERO ? (old(clock) <= s.GracePeriodStart && s.GracePeriodStart <= clock) : s.GracePeriodStart == old(s.GracePeriodStart))
+//@   ensures [C05] grace_keeps_token: result.0 && !fresh ==> s.AccessToken == old(s.AccessToken) && s.Groups == old(s.Groups)
+
+//@ func (p *SSOProvider) ValidateSessionState(s *sessions.SessionState, allowedGroups []string) bool
+//@   modifies s.ValidDeadline, s.Groups, s.GracePeriodStart, clock
+//@   let answered = called(@Do#1) && @Do#1.1 == nil
+//@   let status = @Do#1.0.StatusCode
+//@   let Gerr = @ValidateGroup#1.2
+//@   let fresh = answered && status == 200 && called(@ValidateGroup#1) && Gerr == nil && @ValidateGroup#1.1
+//@   let unavailable = (answered && (status == 429 || status == 503)) || (called(@ValidateGroup#1) && Gerr == ErrAuthProviderUnavailable)
+//@   ensures [C04] ok_is_fresh_or_grace: result ==> fresh || unavailable
+//@   ensures [C04] fresh_updates: result && fresh ==> s.Groups == @ValidateGroup#1.0 && s.GracePeriodStart == ZERO && s.ValidDeadline == truncSec(clock + p.SessionValidTTL)
+//@   ensures [C04] checked_this_user: called(@ValidateGroup#1) ==> arg(@ValidateGroup#1, 1) == s.Email && arg(@ValidateGroup#1, 2) == allowedGroups && arg(@ValidateGroup#1, 3) == s.AccessToken
+//@   ensures [C04] token_rejected_refused: answered && status != 200 && status != 429 && status != 503 ==> !result
+//@   ensures [C04] transport_error_refused: called(@Do#1) && @Do#1.1 != nil ==> !result
+//@   ensures [C04] group_removed_refused: called(@ValidateGroup#1) && Gerr == nil && !@ValidateGroup#1.1 ==> !result
+//@   ensures [C04] group_error_refused: called(@ValidateGroup#1) && Gerr != nil && Gerr != ErrAuthProviderUnavailable ==> !result
+//@   ensures [C05] grace_window: result && !fresh ==> old(clock) < s.GracePeriodStart + p.GracePeriodTTL
+//@   ensures [C05] grace_clock_starts_once: result && !fresh ==> (old(s.GracePeriodStart) == ZERO ? (old(clock) <= s.GracePeriodStart && s.GracePeriodStart <= clock) : s.GracePeriodStart == old(s.GracePeriodStart))
+//@   ensures [C05] grace_keeps_groups: result && !fresh ==> s.Groups == old(s.Groups)
+
+// Redeem is the only constructor of a proxy session: the lifetime bound is fixed here, at login.
+//@ func (p *SSOProvider) Redeem(redirectURL string, code string) (*sessions.SessionState, error)
+//@   modifies clock
+//@   fresh result.0
+//@   let answered = called(@Do#1) && @Do#1.1 == nil && called(@ReadAll#1) && @ReadAll#1.1 == nil
+//@   ensures [C04] ok_needs_200: result.1 == nil ==> result.0 != nil && answered && @Do#1.0.StatusCode == 200 && called(@Unmarshal#1) && @Unmarshal#1 == nil
+//@   ensures [C04] error_yields_no_session: result.1 != nil ==> result.0 == nil
+//@   ensures [C04] lifetime_fixed_at_login: result.1 == nil ==> result.0.LifetimeDeadline <= clock + p.SessionLifetimeTTL && result.0.LifetimeDeadline > old(clock) + p.SessionLifetimeTTL - 1000000000
+//@   ensures [C04] validity_from_login: result.1 == nil ==> result.0.ValidDeadline <= clock + p.SessionValidTTL && result.0.GracePeriodStart == ZERO
+//@   ensures [C13] slug_stamped: result.1 == nil ==> result.0.ProviderSlug == p.ProviderSlug
+//@   ensures [C06] empty_code_refused: code == "" ==> result.1 != nil && !called(@Do#1)
